@@ -307,7 +307,7 @@ class APINoiseFrameHelper(APIFrameHelper):
         self._handle_error_and_close(exc)
 
     def _handle_handshake(self, msg: bytes) -> None:
-        if msg[0] != 0:
+        if not msg or msg[0] != 0:
             self._error_on_incorrect_preamble(msg)
             return
         self._proto.read_message(msg[1:])
